@@ -38,10 +38,13 @@ func (m *MinimumMeasurement) Reset() {
 
 // Update will update the value given an operation function
 func (m *MinimumMeasurement) Update(operation func(value float64) float64) {
-	m.mu.RLock()
-	current := m.value
-	m.mu.RUnlock()
-	m.Add(operation(current))
+	// read-modify-write under one lock: a sample added between the read and the write-back was lost
+	m.mu.Lock()
+	defer m.mu.Unlock()
+	sample := operation(m.value)
+	if m.value == 0.0 || sample < m.value {
+		m.value = sample
+	}
 }
 
 func (m *MinimumMeasurement) String() string {
